@@ -124,8 +124,16 @@ class Repo:
                     out.append(rel)
         return sorted(out)
 
+    spec_modules = []  # SpecModule objects (set by the driver): lemma clients live there
+
     def find(self, qn):
         """qualified name -> ('func', node, mod, None) | ('method', node, mod, ClassInfo) | ('class', ClassInfo) """
+        if qn.startswith("spec:"):
+            mq, fn = qn.rsplit(".", 1)
+            for sm in self.spec_modules:
+                if sm.qn == mq and fn in sm.functions:
+                    return ("func", sm.functions[fn], sm, None)
+            return None
         parts = qn.split(".")
         for k in range(len(parts), 0, -1):
             mq = ".".join(parts[:k])
@@ -167,7 +175,7 @@ class Repo:
                 return None
         return None
 
-    def seg_sha(self, mod: ModuleInfo, node):
+    def seg_sha(self, mod, node):
         seg = ast.get_source_segment(mod.src, node) if not isinstance(node, ast.Module) else mod.src
         return hashlib.sha256((seg or "").encode()).hexdigest()
 
